@@ -35,7 +35,7 @@ def mup_types(repo: Repo) -> List[str]:
 
 def mkparam(tag: Optional[str], ndim: int, depth: Any, name: str = "p", tagged: bool = True) -> Obj:
     shape = Shape(tuple(dim(f"{name}_s{i}") for i in range(ndim)))
-    attrs: Dict[str, Any] = {"shape": shape}
+    attrs: Dict[str, Any] = {"shape": shape, "requires_grad": True}
     if tagged:
         attrs.update(mup_type=tag, mup_scaling_depth=depth)
     return Obj("torch.nn.Parameter", attrs=attrs, term=T("param", (name,)), open_attrs=False)
